@@ -152,6 +152,12 @@ class MinFlowDecompCycles(walkmodel.AbstractWalkModelDiGraph):
         self.additional_starts = additional_starts_internal
         self.additional_ends = additional_ends_internal
 
+        # Check flow conservation (as documented); as in kFlowDecomp, only if there are no edges to ignore
+        # (edge mode only: in node mode the connecting edges of the expanded graph are always ignored)
+        if self.flow_attr_origin == "edge" and len(self.edges_to_ignore) == 0 and not gu.check_flow_conservation(self.G, flow_attr):
+            utils.logger.error(f"{__name__}: The graph G does not satisfy flow conservation or some edges have missing `flow_attr`. This is an error, unless you passed `elements_to_ignore` to include at least those edges with missing `flow_attr`.")
+            raise ValueError("The graph G does not satisfy flow conservation or some edges have missing `flow_attr`. This is an error, unless you passed `elements_to_ignore` to include at least those edges with missing `flow_attr`.")
+
         self.flow_attr = flow_attr
         self.weight_type = weight_type
         self.subset_constraints_coverage = subset_constraints_coverage
